@@ -2222,25 +2222,36 @@ def _orc_routines(ck, rng):
             v, ref = f(float(x)), float(g(x))
             n += 1
             ck.count(("rt-" + name, float(x)), bucket="oracle:routines." + name)
-            if not abs(v - ref) <= _ORC_TOL * max(1.0, abs(ref)):
-                ck.fail("oracle/fff_specfun.fff_psi/rel-error>1e-10" if name == "psi" else "oracle/routines.gamln/%s" % _orc_xclass(x),
-                        "routines.%s(%r) = %r, scipy gives %r" % (name, x, v, ref),
-                        {"x": float(x), "got": v, "expected": ref})
+            err = abs(v - ref) / max(1.0, abs(ref))
+            if not err <= _ORC_TOL:
+                sig = (_orc_psi_sig(err) if name == "psi" else None) or "oracle/fff_specfun.fff_%s/rel-error>3e-10/%s" % (name, _orc_xclass(x))
+                ck.fail(sig, "routines.%s(%r) = %r, scipy gives %r (error %.3g relative to max(1, |ref|))" % (name, x, v, ref, err),
+                        {"x": float(x), "got": v, "expected": ref, "rel_error": err})
     return n
 
 
 def _orc_specfun_grid(ck):
-    xs = [1e-8, 1e-6, 1e-4, 1e-3, 0.01, 0.05, 0.1, 0.25, 0.5, 0.75, 0.9, 1.0, 1.25, 1.4616321449683623, 1.5,
-          2.0, 2.5, 3.0, 4.0, 5.5, 6.9, 7.0, 7.1, 8.0, 10.0, 12.5, 20.0, 50.0, 100.0, 171.5, 1e3, 1e4, 1e6, 1e8]
+    """the FULL argument range of the special functions: a log grid from 1e-8 to 1e3 (12 points per decade quick,
+    100 thorough) + landmarks (branch thresholds of fff_psi: 1e-5, 8.5; the root of psi; integers) + a linear grid"""
+    xs = [1e-8, 1e-6, 1e-5, 1.0000001e-5, 1e-4, 1e-3, 0.01, 0.05, 0.1, 0.25, 0.5, 0.75, 0.9, 1.0, 1.25, 1.4616321449683623, 1.5,
+          2.0, 2.5, 3.0, 4.0, 5.5, 6.9, 7.0, 7.1, 8.0, 8.5, 8.500001, 10.0, 12.5, 20.0, 50.0, 100.0, 171.5, 1e3, 1e4, 1e6, 1e8]
+    xs += [float(v) for v in np.logspace(-8, 3, 11 * ck.n(12, 100) + 1)]
     if ck.thorough():
-        xs += list(np.linspace(0.01, 30, 1500)) + list(np.logspace(-8, 8, 400))
+        xs += list(np.linspace(0.01, 30, 1500)) + list(np.logspace(3, 8, 100))
     else:
         xs += list(np.linspace(0.05, 15, 150))
     return xs
 
 
 def _orc_xclass(x):
-    return "x<0.1" if x < 0.1 else ("0.1<=x<7" if x < 7 else ("7<=x<100" if x < 100 else "x>=100"))
+    """decade of the argument"""
+    return "x~1e%d" % int(math.floor(math.log10(x)))
+
+
+def _orc_psi_sig(err):
+    """fff_psi carries 10-11 digit constants: its error relative to max(1, |psi|) reaches 1.65e-10 (known finding,
+    signature .../rel-error>1e-10 = the band (1e-10, 3e-10]).  Anything beyond that band is a different defect."""
+    return "oracle/fff_specfun.fff_psi/rel-error>1e-10" if err <= 3e-10 else None
 
 
 # ------------------------------------------------------------------ current C via ctypes
@@ -2314,10 +2325,12 @@ def _orc_specfun_c(ck, lib):
             v, ref = float(f(float(x))), float(g(x))
             n += 1
             ck.count(("c-" + name, float(x)), bucket="oracle:specfun.%s:%s" % (name, _orc_xclass(x)))
-            if not abs(v - ref) <= _ORC_TOL * max(1.0, abs(ref)):
-                ck.fail("oracle/fff_specfun.fff_psi/rel-error>1e-10" if name == "fff_psi" else "oracle/fff_specfun.fff_gamln/%s" % _orc_xclass(x),
-                        "%s(%r) = %r (current C through ctypes), scipy gives %r" % (name, float(x), v, ref),
-                        {"call": "%s(x) in libcstat.so" % name, "x": float(x), "got": v, "expected": ref})
+            err = abs(v - ref) / max(1.0, abs(ref))
+            if not err <= _ORC_TOL:
+                sig = (_orc_psi_sig(err) if name == "fff_psi" else None) or "oracle/fff_specfun.%s/rel-error>3e-10/%s" % (name, _orc_xclass(x))
+                ck.fail(sig, "%s(%r) = %r (current C through ctypes), scipy gives %r (error %.3g relative to max(1, |ref|))" % (
+                    name, float(x), v, ref, err),
+                        {"call": "%s(x) in libcstat.so" % name, "x": float(x), "got": v, "expected": ref, "rel_error": err})
     return n
 
 
@@ -2348,6 +2361,97 @@ def _orc_perm_comb(ck, lib):
             if tuple(buf) != (0, 1, 2):
                 ck.fail("oracle/fff_gen_stats.fff_permutation/magic0-not-identity",
                         "fff_permutation(3, 0) = %s" % list(buf), {"n": 3, "magic": 0, "got": list(buf)})
+    # the FULL magic range: magic numbers up to n! - 1 beyond 2**32 need n >= 13 (20! < 2**64)
+    rng = ck.rng("orc-perm-big")
+
+    def ref_perm(n, magic):
+        """documented mixed-radix decoding, least significant digit first: digit i (radix n-i) selects which of the
+        remaining elements (kept in increasing order) goes to position i"""
+        rem, out, m = list(range(n)), [], magic
+        for nc in range(n, 0, -1):
+            out.append(rem.pop(m % nc))
+            m //= nc
+        return out
+
+    for n in ([13, 14, 16, 20] if not ck.thorough() else list(range(9, 21))):
+        buf = (ctypes.c_uint * n)()
+        nf = math.factorial(n)
+        magics = {0, 1, nf - 1, nf - 2, nf // 2, nf // 3}
+        for base in (2 ** 31, 2 ** 32, 2 ** 33, 2 ** 40, 2 ** 48, 2 ** 63):
+            magics.update(m for m in (base - 1, base, base + 1, base + 12345) if m < nf)
+        small = [int(v) for v in rng.integers(0, min(nf, 2 ** 32), ck.n(6, 40))]
+        for sm in small:                      # seeds that differ by multiples of 2**32
+            magics.update(m for m in (sm, sm + 2 ** 32, sm + 3 * 2 ** 32, sm + 2 ** 40) if m < nf)
+        magics.update(int(v) % nf for v in rng.integers(0, 2 ** 63, ck.n(20, 200)))
+        seen = {}
+        for magic in sorted(magics):
+            lib.fff_permutation(buf, n, magic)
+            p = tuple(buf)
+            n_calls += 1
+            feat = "magic>=2^32" if magic >= 2 ** 32 else "magic<2^32"
+            ck.count(("perm-big", n, magic), bucket="oracle:fff_permutation:n>=13:" + feat)
+            rep = {"n": n, "magic": magic, "got": list(p)}
+            if sorted(p) != list(range(n)):
+                ck.fail("oracle/fff_gen_stats.fff_permutation/not-a-permutation/" + feat,
+                        "fff_permutation(n=%d, magic=%d) = %s is not a permutation of 0..n-1" % (n, magic, list(p)), rep)
+                continue
+            if list(p) != ref_perm(n, magic):
+                ck.fail("oracle/fff_gen_stats.fff_permutation/not-the-mixed-radix-decoding/" + feat,
+                        "fff_permutation(n=%d, magic=%d) = %s, the documented mixed-radix decoding of the magic number is %s" % (
+                            n, magic, list(p), ref_perm(n, magic)), dict(rep, expected=ref_perm(n, magic)))
+            if p in seen:
+                ck.fail("oracle/fff_gen_stats.fff_permutation/repeated/" + ("magic>=2^32" if max(magic, seen[p]) >= 2 ** 32 else "magic<2^32"),
+                        "fff_permutation(n=%d) gives %s for both magic=%d and magic=%d (both < n! = %d)" % (n, list(p), seen[p], magic, nf),
+                        {"n": n, "magic": [seen[p], magic], "got": list(p)})
+            seen.setdefault(p, magic)
+
+    def ref_comb(k, n, magic):
+        """the magic-th k-subset of 0..n-1 in lexicographic order"""
+        out, m, kk, i = [], magic % math.comb(n, k), k, 0
+        while kk > 0:
+            c = math.comb(n - i - 1, kk - 1)
+            if m < c:
+                out.append(i)
+                kk -= 1
+            else:
+                m -= c
+            i += 1
+        return out
+
+    for n, k in ([(34, 17), (36, 18), (40, 20), (40, 12), (60, 10)] if not ck.thorough() else
+                 [(34, 17), (35, 17), (36, 18), (38, 19), (40, 20), (40, 12), (45, 15), (60, 10), (64, 9), (33, 16)]):
+        buf = (ctypes.c_uint * k)()
+        nc = math.comb(n, k)
+        magics = {0, 1, nc - 1, nc // 2}
+        for base in (2 ** 31, 2 ** 32, 2 ** 33, 2 ** 36):
+            magics.update(m for m in (base - 1, base, base + 1, base + 999) if m < nc)
+        for sm in [int(v) for v in rng.integers(0, min(nc, 2 ** 32), ck.n(5, 30))]:
+            magics.update(m for m in (sm, sm + 2 ** 32, sm + 2 ** 33) if m < nc)
+        magics.update(int(v) % nc for v in rng.integers(0, 2 ** 63, ck.n(15, 150)))
+        seen = {}
+        for magic in sorted(magics):
+            for i in range(k):
+                buf[i] = 0xFFFFFFFF
+            lib.fff_combination(buf, k, n, magic)
+            c = tuple(buf)
+            n_calls += 1
+            feat = "magic>=2^32" if magic >= 2 ** 32 else "magic<2^32"
+            ck.count(("comb-big", n, k, magic), bucket="oracle:fff_combination:C(n,k)>2^32:" + feat)
+            rep = {"k": k, "n": n, "magic": magic, "got": list(c)}
+            if not (all(c[i] < c[i + 1] for i in range(k - 1)) and all(0 <= v < n for v in c)):
+                ck.fail("oracle/fff_gen_stats.fff_combination/not-an-increasing-subset/" + feat,
+                        "fff_combination(k=%d, n=%d, magic=%d) = %s is not a strictly increasing k-subset of 0..n-1" % (k, n, magic, list(c)), rep)
+                continue
+            if list(c) != ref_comb(k, n, magic):
+                ck.fail("oracle/fff_gen_stats.fff_combination/not-the-lexicographic-rank/" + feat,
+                        "fff_combination(k=%d, n=%d, magic=%d) = %s, the magic-th subset in lexicographic order is %s" % (
+                            k, n, magic, list(c), ref_comb(k, n, magic)), dict(rep, expected=ref_comb(k, n, magic)))
+            if c in seen:
+                ck.fail("oracle/fff_gen_stats.fff_combination/repeated/" + feat,
+                        "fff_combination(k=%d, n=%d) gives %s for magic=%d and magic=%d" % (k, n, list(c), seen[c], magic),
+                        {"k": k, "n": n, "magic": [seen[c], magic], "got": list(c)})
+            seen.setdefault(c, magic)
+
     cmax = ck.n(7, 10)
     for n in range(1, cmax + 1):
         for k in range(1, n + 1):
